@@ -24,7 +24,10 @@ ck = Check('C19', 'exploration')
 
 # ------------------------------------------------------------------ DNS seam: nothing touches a resolver
 
-HOSTS = {'alice.example': '192.168.0.11', 'bob.example': '192.168.0.77', 'six.example': '2001:db8::11'}
+HOSTS = {'alice.example': '192.168.0.11', 'bob.example': '192.168.0.77', 'six.example': '2001:db8::11',
+         # names with several addresses, in resolver order: the connection is the one of the FIRST address
+         'multi.example': ['192.168.0.77', '192.168.0.11'], 'multi2.example': ['192.168.0.11', '192.168.0.77'],
+         'dual.example': ['2001:db8::77', '192.168.0.11']}
 LISTEN = ['192.168.0.1', '192.168.0.11', '2001:db8::1', '2001:db8::11']
 LISTEN_OBJS = [ipaddress.ip_address(a) for a in LISTEN]
 
@@ -39,19 +42,25 @@ def _lookup(host):
     except ValueError:
         pass
     if host in HOSTS:
-        return ipaddress.ip_address(HOSTS[host])
+        v = HOSTS[host]
+        return [ipaddress.ip_address(a) for a in (v if isinstance(v, list) else [v])]
     raise real_socket.gaierror(real_socket.EAI_NONAME, 'Name or service not known')
 
 
 def _getaddrinfo(host, port, *args, **kw):
-    addr = _lookup(host)
-    if addr.version == 4:
-        return [(real_socket.AF_INET, real_socket.SOCK_STREAM, 6, '', (str(addr), 0))]
-    return [(real_socket.AF_INET6, real_socket.SOCK_STREAM, 6, '', (str(addr), 0, 0, 0))]
+    addrs = _lookup(host)
+    out = []
+    for addr in (addrs if isinstance(addrs, list) else [addrs]):
+        if addr.version == 4:
+            out.append((real_socket.AF_INET, real_socket.SOCK_STREAM, 6, '', (str(addr), 0)))
+        else:
+            out.append((real_socket.AF_INET6, real_socket.SOCK_STREAM, 6, '', (str(addr), 0, 0, 0)))
+    return out
 
 
 def _gethostbyname(host):
-    return str(_lookup(host))
+    a = _lookup(host)
+    return str(a[0] if isinstance(a, list) else a)
 
 
 configuration.socket = seams._ModProxy(real_socket, getaddrinfo=_getaddrinfo, gethostbyname=_gethostbyname)
@@ -86,9 +95,10 @@ VALID = {
 def conn_values(key, fam):
     other = '2001:db8::1' if fam == 'v4' else '192.168.0.1'
     if key == 'my_addr':       # not listened on / unresolvable / resolves to a listened address / other family
-        return ['192.168.0.9', 'nohost.example', 'alice.example', 'bob.example', '300.1.1.1', other]
+        return ['192.168.0.9', 'nohost.example', 'alice.example', 'bob.example', '300.1.1.1', other,
+                'multi.example', 'multi2.example', 'dual.example']
     if key == 'peer_addr':
-        return ['192.168.0.9', 'nohost.example', 'bob.example', '300.1.1.1', '2001:db8::9']
+        return ['192.168.0.9', 'nohost.example', 'bob.example', '300.1.1.1', '2001:db8::9', 'multi.example']
     if key in ('my_auth', 'peer_auth'):
         return [{'id': 'carol@example.org', 'psk': 'other'}, {'psk': 'x', 'privkey': PRIVKEY, 'pubkey': PUBKEY}]
     if key in ('lifetime', 'dpd'):
